@@ -200,6 +200,10 @@ func kindValue(kind string) interface{} {
 		return []interface{}{"", "host=", "a:", "=b", "x${UNSET_VAR_Q}", " "}
 	case "odd-string":
 		return "${UNSET_VAR_Q}"
+	case "unc-prefix": // a Windows UNC prefix that ends right after the server name
+		return `\\srv\`
+	case "drive-prefix":
+		return "C:"
 	case "odd-map":
 		return map[string]interface{}{"k": "", "": "v", "e": nil, "n": 3}
 	case "repeated-strings": // repeated entries in several positions (keyed lists collapse them)
